@@ -95,16 +95,22 @@ Theorem C16_rune_count_additive : forall s t,
 Proof. exact rune_count_app_valid. Qed.
 Print Assumptions C16_rune_count_additive.
 
-(** left-aligned text starts right after the column's margin; right-aligned text
-    ends exactly where its span ends, so such cells end at one offset *)
+(** left-aligned text starts right after the column's margin; right-aligned
+    (non-blank) text ends exactly where its span ends, so such cells end at one
+    offset; a blank text is not padded (hooks/fix_c16_blank_aligned_padding.diff) *)
 Theorem C16_left_aligned_start : forall offs lm c,
   c_align c = ALeft -> text_start offs lm c = getz offs (c_col c) + getz lm (c_col c).
 Proof. exact left_start. Qed.
+Theorem C16_blank_text_start : forall offs lm c,
+  all_blank (c_val c) = true -> text_start offs lm c = getz offs (c_col c) + getz lm (c_col c).
+Proof. exact blank_start. Qed.
 Theorem C16_right_aligned_end : forall offs lm c,
-  c_align c = ARight -> cell_end offs lm c = getz offs (c_col c + c_span c).
+  c_align c = ARight -> all_blank (c_val c) = false ->
+  cell_end offs lm c = getz offs (c_col c + c_span c).
 Proof. exact right_end. Qed.
 Theorem C16_right_aligned_end_equal : forall offs lm c1 c2,
   c_align c1 = ARight -> c_align c2 = ARight ->
+  all_blank (c_val c1) = false -> all_blank (c_val c2) = false ->
   (c_col c1 + c_span c1 = c_col c2 + c_span c2)%nat ->
   cell_end offs lm c1 = cell_end offs lm c2.
 Proof. exact layout_right_aligned_end_equal. Qed.
@@ -118,15 +124,19 @@ Theorem C16_no_overlap_no_truncation : forall ops t perm l r pre a mid b post,
 Proof. exact layout_no_overlap. Qed.
 Print Assumptions C16_no_overlap_no_truncation.
 
-(** no trailing blanks: nothing is written after the last printed cell's text
-    (for an empty text: after its margin, provided it is left-aligned — see
+(** no trailing blanks, for EVERY line with a printed cell (empty / blank texts,
+    any alignment, any margin): the line ends with [tail_text] of its last
+    printed cell and nothing is written after it - the cell's text if that is
+    not blank, else its non-blank margin followed by the cell's own blank text
+    (no alignment padding; before hooks/fix_c16_blank_aligned_padding.diff an
+    empty centred / right-aligned text was padded:
     C16_trailing_blank_empty_aligned_refuted); a row without printed cells is
     an empty line *)
 Theorem C16_no_trailing_blank : forall ops t perm l r pre c,
   build ops = Some t -> ops_spans_pos ops -> format t perm = OOut l ->
   row_cells (t_cells t) r = pre ++ [c] ->
-  (c_val c <> [] \/ c_align c = ALeft) ->
-  exists line X, nth_error (l_lines l) r = Some line /\ line = X ++ tail_text c.
+  exists line X, nth_error (l_lines l) r = Some line /\ line = X ++ tail_text c /\
+    (if all_blank (c_val c) then all_blank (c_margin c) = false else True).
 Proof. exact layout_no_trailing_blank. Qed.
 Print Assumptions C16_no_trailing_blank.
 
@@ -507,6 +517,35 @@ Proof.
   intros n Hn. do 26 (destruct n as [|n]; [vm_compute; reflexivity|]). lia.
 Qed.
 
+(** known finding C16_csv_summary_one_row: for a table with ONE row ToCSV writes
+    the summary record (and its warnings), ToText omits the summary row. The
+    real renderings of `benchstat z.txt` (z.txt = "BenchmarkA 1 0 ns/op" twice):
+    the judge of the property rejects them, the judge relaxed by exactly this
+    deviation accepts them; and the assembly models do the same (the CSV model
+    writes the record "geomean", the text model has no such cell) *)
+Definition one_row_text : bytes :=
+  bs "  │    z.txt    │" ++ [x0a] ++ bs "  │   sec/op    │" ++ [x0a] ++ bs "A   0.000 ± ∞ ¹" ++ [x0a]
+  ++ bs "¹ need >= 6 samples for confidence interval at level 0.95" ++ [x0a].
+Definition one_row_recs : list (list bytes) :=
+  [[[]; bs "z.txt"]; [[]; bs "sec/op"; bs "CI"]; [bs "A"; bs "0"; bs "∞"]; [bs "geomean"]].
+Definition one_row_warns : bytes :=
+  bs "B3: need >= 6 samples for confidence interval at level 0.95" ++ [x0a]
+  ++ bs "B4: summaries must be >0 to compute geomean" ++ [x0a].
+Definition one_row_abs : rtable :=
+  mkRT (bs "sec/op") (bs "geomean") 1 [[bs "z.txt"]]
+       [(bs "A", [Some (mkRC (bs "0") (bs "0.000") (bs "∞") []
+                             [bs "need >= 6 samples for confidence interval at level 0.95"] None)])]
+       [Some (mkRS false (bs "0") (bs "0.000") false [] [bs "summaries must be >0 to compute geomean"])].
+Theorem C16_csv_summary_one_row_refuted :
+  text_csv_ok 1 one_row_text one_row_recs one_row_warns = false /\
+  text_csv_ok_gen true 1 one_row_text one_row_recs one_row_warns = true /\
+  fst (csv_model one_row_abs 1) = one_row_recs /\
+  map (fun w => snd w) (snd (csv_model one_row_abs 1))
+    = [bs "need >= 6 samples for confidence interval at level 0.95"; bs "summaries must be >0 to compute geomean"] /\
+  existsb (fun o => match o with OSpan _ v _ _ => beq v (bs "geomean") | _ => false end) (fst (text_model one_row_abs)) = false /\
+  snd (text_model one_row_abs) = [bs "need >= 6 samples for confidence interval at level 0.95"].
+Proof. repeat split; vm_compute; reflexivity. Qed.
+
 Local Open Scope Z_scope.
 (** ** witnesses *)
 Definition bar2 : bytes := bs " │".
@@ -555,9 +594,9 @@ Proof.
   split; [split; cbn; lia|]. vm_compute. reflexivity.
 Qed.
 
-(** texttab pads an EMPTY centred or right-aligned text: with a visible margin
-    as the last cell of a row the line ends in blanks (not reachable through
-    benchtab, whose rows end with a left-aligned " │" cell) *)
+(** texttab before hooks/fix_c16_blank_aligned_padding.diff padded an EMPTY
+    centred or right-aligned text: with a visible margin as the last cell of a
+    row the line ended in blanks ("a|   "); repaired, the line is "a|" *)
 Definition trailing_ops : list op :=
   [ORow; OSpan 1 (bs "a") None ALeft; OSpan 1 [] (Some (bs "|")) ARight;
    ORow; OSpan 1 (bs "b") None ALeft; OSpan 1 (bs "xyz") None ALeft].
@@ -565,9 +604,11 @@ Definition trailing_tab : tab :=
   Eval vm_compute in match build trailing_ops with Some t => t | None => tab0 end.
 Theorem C16_trailing_blank_empty_aligned_refuted :
   build trailing_ops = Some trailing_tab /\
-  exists l, format trailing_tab [0; 1; 2; 3]%nat = OOut l /\ nth_error (l_lines l) 0 = Some (bs "a|   ").
+  exists l, format trailing_tab [0; 1; 2; 3]%nat = OOut l /\
+    emit_row_asis (l_offs l) (l_lm l) (row_cells (t_cells trailing_tab) 0) = bs "a|   " /\
+    nth_error (l_lines l) 0 = Some (bs "a|").
 Proof.
   split; [vm_compute; reflexivity|].
   exists (match format trailing_tab [0; 1; 2; 3]%nat with OOut l => l | _ => mkLayout [] [] [] [] end).
-  split; vm_compute; reflexivity.
+  repeat split; vm_compute; reflexivity.
 Qed.
